@@ -31,7 +31,7 @@
 
    Deviations of the code from the intended discipline are switchable so that
    TLC shows what each breaks (sensitivity controls):
-     Pinned = TRUE      the pinned main.c: (a) run_linker() runs whenever
+     Pinned = TRUE      main.c before fix-1 / fix-2 of proposed/C14 (D24, D25): (a) run_linker() runs whenever
                         ld_args is non-empty, also under -c / -S (an .o input
                         is enough); (b) in link mode a .s input is assembled
                         to the -o / default .o path and never given to ld
